@@ -43,7 +43,9 @@ type propConf struct {
 var props = map[string]propConf{
 	"C01": {Engine: "E1+E2", QuickBudget: 15, ThorBudget: 600},
 	"C02": {Engine: "E1+E2", QuickBudget: 15, ThorBudget: 600},
+	"C03": {Engine: "E1", QuickBudget: 12, ThorBudget: 600},
 	"C04": {Engine: "E1+E2", QuickBudget: 12, ThorBudget: 600},
+	"C06": {Engine: "E1+E2", QuickBudget: 12, ThorBudget: 600},
 	"C08": {Engine: "E1", QuickBudget: 12, ThorBudget: 600},
 	"C09": {Engine: "E2", QuickBudget: 15, ThorBudget: 600},
 }
